@@ -465,7 +465,7 @@ func checkBagHostile(h BagHostile, st *stats.Collector) error {
 	if err != nil {
 		return pk.Failf("harness", "bag encoder: %v", err)
 	}
-	o := worker().Call(isolate.Req{Entry: entryBag, Opts: h.Opts, Input: in}, 15*time.Second, 60*time.Second)
+	o := worker().Call(isolate.Req{Entry: entryBag, Opts: h.Opts, Input: in}, 15*time.Second, 600*time.Second)
 	if err := judge(fmt.Sprintf("Bag2MCAP on a %d-byte corrupted bag (%s)", len(in), what), o); err != nil {
 		return err
 	}
@@ -519,7 +519,18 @@ func genDB3(t *rapid.T) DB3Case {
 	c := DB3Case{HasQoS: rapid.Bool().Draw(t, "has-qos"), Dirs: rapid.IntRange(1, 2).Draw(t, "dirs")}
 	nd := rapid.IntRange(1, 6).Draw(t, "n-defs")
 	for i := 0; i < nd; i++ {
-		c.Defs = append(c.Defs, MsgDef{Pkg: rapid.SampledFrom([]string{"pkg_a", "pkg_b", "std_msgs"}).Draw(t, "pkg"), Name: fmt.Sprintf("M%d", i)})
+		// short names come from a small pool so that different packages define equally named types
+		d := MsgDef{Pkg: rapid.SampledFrom([]string{"pkg_a", "pkg_b", "std_msgs"}).Draw(t, "pkg"), Name: rapid.SampledFrom([]string{"Point", "Scan", "Cell"}).Draw(t, "def-name")}
+		for clash := true; clash; {
+			clash = false
+			for _, o := range c.Defs {
+				if o.Pkg == d.Pkg && o.Name == d.Name {
+					clash = true
+					d.Name += fmt.Sprint(i)
+				}
+			}
+		}
+		c.Defs = append(c.Defs, d)
 	}
 	for i := nd - 1; i >= 0; i-- {
 		d := &c.Defs[i]
@@ -535,8 +546,9 @@ func genDB3(t *rapid.T) DB3Case {
 				d.Lines = append(d.Lines, fmt.Sprintf("%s%s f%d", ref, suffix, f))
 				d.Deps = append(d.Deps, r)
 			} else {
-				d.Lines = append(d.Lines, rapid.SampledFrom([]string{"uint8 f%d", "string f%d", "float64[] f%d", "string<=10 f%d", "# comment %d", "int32 K%d=5", "bool[2] f%d"}).Draw(t, "line"))
-				d.Lines[len(d.Lines)-1] = fmt.Sprintf(d.Lines[len(d.Lines)-1], f)
+				// the names carry the definition's number, so that the text of one definition is never the text of another
+				d.Lines = append(d.Lines, rapid.SampledFrom([]string{"uint8 f%s", "string f%s", "float64[] f%s", "string<=10 f%s", "# comment %s", "int32 K%s=5", "bool[2] f%s"}).Draw(t, "line"))
+				d.Lines[len(d.Lines)-1] = fmt.Sprintf(d.Lines[len(d.Lines)-1], fmt.Sprintf("%d_of_def%d", f, i))
 			}
 		}
 	}
@@ -916,7 +928,7 @@ func genDB3Hostile(t *rapid.T) DB3Hostile {
 }
 
 func checkDB3Hostile(h DB3Hostile, st *stats.Collector) error {
-	o := worker().Call(isolate.Req{Entry: entryDB3, Input: h.Bytes}, 15*time.Second, 60*time.Second)
+	o := worker().Call(isolate.Req{Entry: entryDB3, Input: h.Bytes}, 15*time.Second, 600*time.Second)
 	if err := judge(fmt.Sprintf("DB3ToMCAP on a %d-byte garbage database", len(h.Bytes)), o); err != nil {
 		return err
 	}
